@@ -10,32 +10,10 @@ fn vec_drain_all(v: &mut Vec<u8>) -> (r: Vec<u8>)
     ensures r@ == old(v)@, final(v)@.len() == 0
 { v.drain(..).collect() }
 #[verifier::external_body]
-fn shim_u128_from_le_bytes(b: [u8; 16]) -> (r: u128)
-    ensures r == le128(b@)
-{ u128::from_le_bytes(b) }
-#[verifier::external_body]
 fn shim_i128_ilog2(x: i128) -> (r: u32)
     requires x > 0
     ensures r as int == lg2(x as int)
 { x.ilog2() }
-// floats: byte images are uninterpreted; assumed: from_le_bytes inverts to_le_bytes bit for bit
-pub uninterp spec fn f32_le(x: f32) -> Seq<u8>;
-pub uninterp spec fn f64_le(x: f64) -> Seq<u8>;
-pub uninterp spec fn f32_from_le(b: Seq<u8>) -> f32;
-pub uninterp spec fn f64_from_le(b: Seq<u8>) -> f64;
-#[verifier::external_body]
-pub proof fn axiom_float_le_roundtrip()
-    ensures forall|x: f32| #[trigger] f32_from_le(f32_le(x)) == x, forall|x: f64| #[trigger] f64_from_le(f64_le(x)) == x,
-        forall|x: f32| (#[trigger] f32_le(x)).len() == 4, forall|x: f64| (#[trigger] f64_le(x)).len() == 8,
-{}
-#[verifier::external_body]
-fn shim_f32_to_le_bytes(x: &f32) -> (r: [u8; 4]) ensures r@ == f32_le(*x) { x.to_le_bytes() }
-#[verifier::external_body]
-fn shim_f64_to_le_bytes(x: &f64) -> (r: [u8; 8]) ensures r@ == f64_le(*x) { x.to_le_bytes() }
-#[verifier::external_body]
-fn shim_f32_from_le_bytes(b: [u8; 4]) -> (r: f32) ensures r == f32_from_le(b@) { f32::from_le_bytes(b) }
-#[verifier::external_body]
-fn shim_f64_from_le_bytes(b: [u8; 8]) -> (r: f64) ensures r == f64_from_le(b@) { f64::from_le_bytes(b) }
 #[verifier::external_body]
 fn shim_size_of_f32() -> (r: usize) ensures r == 4 { std::mem::size_of::<f32>() }
 #[verifier::external_body]
@@ -238,7 +216,6 @@ impl ByteStreamWriteBuffer {
 //@endfn
 
 //@fn src/record.rs - serialize_integer serves=C12,C10,C01
-//@rw uint\.to_le_bytes\(\) ==> shim_u64_to_le_bytes(uint)
 //@sig
     requires old(buffer).wf(), old(buffer).buffer@.len() + 32 < usize::MAX,
         // the packer's precondition: the value is representable in the declared range
@@ -306,8 +283,6 @@ impl RecordDataType {
     }
 
 //@fn src/record.rs RecordDataType write serves=C12,C10,C01 ret=r
-//@rw float\.to_le_bytes\(\) ==> shim_f32_to_le_bytes(float)
-//@rw double\.to_le_bytes\(\) ==> shim_f64_to_le_bytes(double)
 //@rw \bint\b ==> int_v
 //@sig
         requires old(buffer).wf(), old(buffer).buffer@.len() + 64 < usize::MAX,
@@ -374,7 +349,6 @@ impl ByteStreamReadBuffer {
 //@endfn
 
 //@fn src/bs_read.rs ByteStreamReadBuffer extract serves=C12,C03,C08 ret=r
-//@rw u128::from_le_bytes\(data\) ==> shim_u128_from_le_bytes(data)
 //@sig
         requires old(self).wf(), bits <= 64
         ensures final(self).wf(), final(self).buffer@ == old(self).buffer@,
@@ -567,8 +541,6 @@ impl BitPack {
 //@endfn
 
 //@fn src/bitpack.rs BitPack unpack_doubles serves=C12,C03,C08,C09 ret=r
-//@rw data\.to_le_bytes\(\) ==> shim_u64_to_le_bytes(data)
-//@rw f64::from_le_bytes\(bytes\) ==> shim_f64_from_le_bytes(bytes)
 //@sig
         requires old(stream).wf()
         ensures
@@ -618,8 +590,6 @@ impl BitPack {
 //@endfn
 
 //@fn src/bitpack.rs BitPack unpack_singles serves=C12,C03,C08,C09 ret=r
-//@rw \(data as u32\)\.to_le_bytes\(\) ==> shim_u32_to_le_bytes(data as u32)
-//@rw f32::from_le_bytes\(bytes\) ==> shim_f32_from_le_bytes(bytes)
 //@sig
         requires old(stream).wf()
         ensures
